@@ -42,6 +42,21 @@ pub fn check_range(origin: &str, r: &Range, from_parse: bool, st: &mut Stats) ->
         Ok(Err(e)) => return Err(Failure::new("printed-range-rejected", format!("{}: prints as {:?} which Range::parse rejects: {}", origin, p1, e))),
         Err(p) => return Err(Failure::new("reparse-panics", format!("{}: Range::parse({:?}) panicked: {}", origin, p1, p))),
     };
+    {
+        use std::hash::{Hash, Hasher};
+        let dg = |x: &Range| {
+            let mut h = std::collections::hash_map::DefaultHasher::new();
+            x.hash(&mut h);
+            h.finish()
+        };
+        let c = r.clone();
+        if c != *r || dg(&c) != dg(r) || c.to_string() != p1 {
+            return Err(Failure::new("clone-differs", format!("{}: the clone of {:?} is not equal to it / hashes or prints differently", origin, p1)));
+        }
+        if r1 == *r && dg(&r1) != dg(r) {
+            return Err(Failure::new("equal-ranges-hash-differently", format!("{}: {:?} and its re-parse are == but hash differently", origin, p1)));
+        }
+    }
     if from_parse && r1 != *r {
         return Err(Failure::new("reparsed-range-not-equal", format!("{}: prints as {:?}, which parses to a range that is != the original (it prints as {:?})", origin, p1, r1.to_string())));
     }
